@@ -104,6 +104,7 @@ class Kernel:
         self.pool_delays = 0
         self.slow_pool = None  # (n, p): tasks of the n-th pool created in this run start 6-40 s late with probability p
         self.slow_pool_delays = 0
+        self.slow_thread = None
 
     # --- decisions -------------------------------------------------------------------------
     def decide(self, n):
@@ -235,7 +236,9 @@ class Kernel:
         if me is None or not self.active or self.killing:
             return
         sp = getattr(me, '_stall_p', None)  # a slow thread (per-thread stall probability) or the run's stall rate
-        sp = self.stall_p if sp is None else sp
+        if sp is None:
+            st = self.slow_thread  # (substring of the thread's name, p): one kind of thread is slow in this run
+            sp = st[1] if st and st[0] in me.name else self.stall_p
         if sp > 0.0 and self.stalls < self.max_stalls and not me._nostall and self.decide_p(sp):
             d = STALL_DURATIONS[self.decide(len(STALL_DURATIONS))]
             self.stalls += 1
